@@ -31,3 +31,10 @@ Fixpoint set_nth {A : Type} (l : list A) (n : nat) (x : A) : list A :=
 Definition load_coords {A : Type} (default : A) (ids : list Z) (sorted_pos : list A) : list A :=
   fold_left (fun pos mp => set_nth pos (fst mp) (snd mp)) (combine (sorted_map ids) sorted_pos)
             (repeat default (length ids)).
+
+(* atomNumbersRange a-b: the atoms a, a+1, ..., b in this order (nothing when b < a) *)
+Definition range_list (a b : Z) : list Z := map (fun k => (a + Z.of_nat k)%Z) (seq 0 (Z.to_nat (b - a + 1))).
+(* the selections of one group in the order in which atom_group::parse adds them: atomsOfGroup, every atomNumbers line,
+   indexGroup, every atomNumbersRange line (the group is then mk_group of the atoms with these ids) *)
+Definition selection_ids (of_group : list Z) (numbers : list (list Z)) (index_group : list Z) (ranges : list (Z * Z)) : list Z :=
+  of_group ++ concat numbers ++ index_group ++ concat (map (fun ab => range_list (fst ab) (snd ab)) ranges).
